@@ -196,7 +196,7 @@ def build(tier):
         obs.append(vf.Ob("pool_%s" % name, "C01", complete=False, bound="one concrete pair of shapes (%s), symbolic element values" % name, panic_prop="C17",
                          what="Entry::equiv (the pooling test of DataSection::insert_data_value) holds exactly when values AND paddings agree at every level"))
     src = src.replace("@OFFS@", offs).replace("@LAYOUT@", lay).replace("@POOL@", pool)
-    u = vf.KaniUnit("c13_layout", {"src/lib.rs": src}, obs, timeout_s=1200 if tier == "quick" else 4000, jobs=6, auto_files=[DS, "sway-core/src/lib.rs"])
+    u = vf.KaniUnit("c13_layout", {"src/lib.rs": src}, obs, timeout_s=2400 if tier == "quick" else 4000, jobs=6, auto_files=[DS, "sway-core/src/lib.rs"])
     u.fragments = [vf.frag_record(fr[k]) for k in fr]
     u.rewrites = [{"rule": "R1", "before": "serde derives on Entry/Datum/EntryName/Padding", "after": "plain derives", "times": 5}]
     u.assumptions = ["CompiledBytecode reduced to its bytecode field; DataSection::pointer_id replaced by a unit type (not read by the functions under contract)",
